@@ -21,6 +21,18 @@ func init() {
 		Technique: "stateless model checking: preemption-bounded exhaustive schedule exploration of the real code under a cooperative scheduler, interval-linearizability oracle; separate free-running race-detector pass"})
 	reg(&spec{ID: "C14", Overlay: "full", Shards: [2]int{16, 16}, BudgetS: [2]int{60, 900}, Level: "model_checking", Rule: schedRule, Assume: schedAssume,
 		Technique: "stateless model checking: preemption-bounded exhaustive schedule exploration of Close against every API call under a cooperative scheduler"})
+	reg(&spec{ID: "C19", Overlay: "full", Shards: [2]int{16, 16}, BudgetS: [2]int{45, 600}, Level: "model_checking",
+		Rule: "full product: source logs of every length up to the bound x every vector of entry sizes x first index x batchBytes x (source, destination) store pairing x cancellation at the k-th GetLog for every k, through the real CopyLogs; CopyStable with every subset of the standard keys set x extra keys x store pairing; destination compared field by field with the source; a case is non-trivial when the source is non-empty",
+		Assume: []string{"stores: the WAL on the simulated disk, raft.InmemStore, raft-boltdb/v2 on a scratch directory", "CopyStable from stores that report missing keys as errors is only driven with all keys set"},
+		Technique: "bounded-exhaustive enumeration of the input/configuration product on the real code against the source as reference"})
+	reg(&spec{ID: "C12", Overlay: "full", Shards: [2]int{16, 16}, BudgetS: [2]int{45, 600}, Level: "model_checking",
+		Rule: "full product of boundary menus (Index, Term in {0, 2^7k-1, 2^7k, MaxUint64}; Type; AppendedAt shapes) and of Data x Extensions shapes (nil, empty, sizes around 2^7, 2^14, 2^16) x AppendedAt through Encode/Decode (equality, documented length, no aliasing of the input buffer); byte-shape pairs through StoreLogs/GetLog across the 64 KiB buffer boundary before and after reopen; retained GetLog results vs later reads for every ordered pair of a small index set (deterministic pool); codec-ID matrix (reserved, custom, foreign)",
+		Assume: []string{"sync.Pool replaced by a deterministic LIFO pool so that buffer reuse is repeatable"},
+		Technique: "bounded-exhaustive enumeration of boundary-value products on the real codec and WAL"})
+	reg(&spec{ID: "C15", Overlay: "full", Shards: [2]int{16, 16}, BudgetS: [2]int{60, 600}, Level: "model_checking",
+		Rule: "every payload size in the neighbourhoods of 0, the 64 KiB read buffer, the segment size and 64 MiB x segment size x position in a batch; StoreLogs nil => every entry of the batch reads back identical before and after a reopen and the next append works; StoreLogs error => log unchanged",
+		Assume: []string{"simulated disk (in-memory); 64 MiB cases run on one shard"},
+		Technique: "bounded-exhaustive enumeration of size neighbourhoods on the real code"})
 	for _, id := range []string{"C08", "C13"} {
 		reg(&spec{ID: id, Overlay: "full", Shards: [2]int{16, 16}, BudgetS: [2]int{60, 900}, Level: "model_checking", Rule: seqRule + " || " + crashRule, Assume: append(append([]string{}, seqAssume...), crashAssume...),
 			Technique: "bounded-exhaustive operation sequences against a reference model plus explicit-state model checking of crash images"})
